@@ -287,9 +287,12 @@ impl<F: Write + Seek> MiniAllocator<F> {
             }
         }
         // Add a new mini sector to the end of the mini stream and return it.
+        // Make room in the mini stream before entering the new mini sector in
+        // the MiniFAT, so that a failure in between never leaves the MiniFAT
+        // with more entries than the mini stream has mini sectors.
         let new_mini_sector = self.minifat.len() as u32;
-        self.set_minifat(new_mini_sector, value)?;
         self.append_mini_sector()?;
+        self.set_minifat(new_mini_sector, value)?;
         Ok(new_mini_sector)
     }
 
